@@ -147,7 +147,6 @@ type sessRun struct {
 	cfg    sessCfg
 	steps  []string
 	text   []string
-	mon    *ringMon
 	downed map[string]*gocql.HostInfo // hosts reported down and not connected again since
 	viol   []func(idx int)
 	seen   map[string]bool // (monitor kind, finding) already reported for this history
@@ -193,9 +192,8 @@ func (sr *sessRun) violate(kind, finding, detail string) {
 // monitors evaluated after every step
 func (sr *sessRun) afterStep(before snapshot) {
 	after := snap(sr.rg)
-	sr.mon.observe(before, after)
 	for _, v := range checkRingIndexes(sr.rg) {
-		sr.violate(v.kind, sr.mon.finding(v), v.detail)
+		sr.violate(v.kind, "", v.detail)
 	}
 	// a node reported down is not offered until it is connected again
 	for id, h := range sr.downed {
@@ -260,7 +258,7 @@ func (sr *sessRun) expectedIDs(local rowSpec, peers []rowSpec) (ids map[string]b
 }
 
 func (sr *sessRun) refreshMonitor(code int64, local rowSpec, peers []rowSpec, before snapshot) {
-	want, dup := sr.expectedIDs(local, peers)
+	want, _ := sr.expectedIDs(local, peers)
 	noAddr := local.noUsableAddress(true)
 	for _, p := range peers {
 		noAddr = noAddr || p.noUsableAddress(false)
@@ -269,11 +267,18 @@ func (sr *sessRun) refreshMonitor(code int64, local rowSpec, peers []rowSpec, be
 	bad := ""
 	switch {
 	case code == 3:
-		fid := ""
-		if noAddr {
-			fid = findNoAddr
+		sr.violate("refresh-panics", "", "refreshRing panicked")
+		return
+	case noAddr:
+		// a row without any usable address: the report is unreadable; the refresh must fail like any failed
+		// refresh, leaving the picture as it was
+		same := code == 4 && len(hosts) == len(before.hosts)
+		for id, h := range before.hosts {
+			same = same && hosts[id] == h
 		}
-		sr.violate("refresh-panics", fid, "refreshRing panicked")
+		if !same {
+			sr.violate("unusable-row-refresh", "", fmt.Sprintf("a report with a row without usable address: refresh code %d, ring changed or refresh did not fail", code))
+		}
 		return
 	case code != 0:
 		bad = fmt.Sprintf("refresh failed (code %d) although the control node answered", code)
@@ -307,43 +312,40 @@ func (sr *sessRun) refreshMonitor(code int64, local rowSpec, peers []rowSpec, be
 			}
 		}
 		// "a node whose address changed is replaced": the ring's record carries the reported addresses
-		if !dup {
-			check := func(rs rowSpec, local bool) {
-				h := hosts[idStr(rs.id)]
-				if h == nil || !want[idStr(rs.id)] || !sr.cfg.accepts(rs.id, rs.dc) {
-					return
-				}
-				n2n, conn := rs.peer, rs.rpc
-				if local {
-					n2n = rs.bcast
-				}
-				if !validAddr(conn) {
-					conn = rs.pref
-				}
-				if !validAddr(conn) {
-					conn = n2n
-				}
-				if validAddr(n2n) && !gocql.VerifC16NodeToNode(h).Equal(n2n) {
-					bad += fmt.Sprintf(" host %s is reported at %v but the ring has it at %v;", idStr(rs.id), n2n, gocql.VerifC16NodeToNode(h))
-				}
-				if validAddr(conn) && !h.ConnectAddress().Equal(conn) {
-					bad += fmt.Sprintf(" host %s is reported with connect address %v but the ring connects to %v;", idStr(rs.id), conn, h.ConnectAddress())
-				}
+		// (a host id reported twice counts once, by its first accepted report)
+		checked := map[int64]bool{}
+		check := func(rs rowSpec, local bool) {
+			h := hosts[idStr(rs.id)]
+			if h == nil || !want[idStr(rs.id)] || !sr.cfg.accepts(rs.id, rs.dc) || checked[rs.id] {
+				return
 			}
-			check(local, true)
-			for _, p := range peers {
-				if p.specValidPeer() {
-					check(p, false)
-				}
+			checked[rs.id] = true
+			n2n, conn := rs.peer, rs.rpc
+			if local {
+				n2n = rs.bcast
+			}
+			if !validAddr(conn) {
+				conn = rs.pref
+			}
+			if !validAddr(conn) {
+				conn = n2n
+			}
+			if validAddr(n2n) && !gocql.VerifC16NodeToNode(h).Equal(n2n) {
+				bad += fmt.Sprintf(" host %s is reported at %v but the ring has it at %v;", idStr(rs.id), n2n, gocql.VerifC16NodeToNode(h))
+			}
+			if validAddr(conn) && !h.ConnectAddress().Equal(conn) {
+				bad += fmt.Sprintf(" host %s is reported with connect address %v but the ring connects to %v;", idStr(rs.id), conn, h.ConnectAddress())
+			}
+		}
+		check(local, true)
+		for _, p := range peers {
+			if p.specValidPeer() {
+				check(p, false)
 			}
 		}
 	}
 	if bad != "" {
-		fid := ""
-		if dup && code == 1 {
-			fid = findDup
-		}
-		sr.violate("refresh-host-set", fid, bad)
+		sr.violate("refresh-host-set", "", bad)
 	}
 }
 
@@ -381,7 +383,7 @@ func (sr *sessRun) setRows(local rowSpec, peers []rowSpec) {
 }
 
 func newSessRun(o *hlib.Out, cfg sessCfg, contact int, local rowSpec, peers []rowSpec) (*sessRun, error) {
-	sr := &sessRun{o: o, nd: newNode(), pol: &recPolicy{}, cfg: cfg, mon: newRingMon(), downed: map[string]*gocql.HostInfo{}, seen: map[string]bool{}}
+	sr := &sessRun{o: o, nd: newNode(), pol: &recPolicy{}, cfg: cfg, downed: map[string]*gocql.HostInfo{}, seen: map[string]bool{}}
 	sr.setRows(local, peers)
 	cl := gocql.NewCluster(v4(contact).String())
 	cl.ProtoVersion = 4
@@ -474,17 +476,6 @@ func (sr *sessRun) refreshFail() {
 func (sr *sessRun) controlReconnect(local rowSpec, peers []rowSpec) {
 	before := snap(sr.rg)
 	sr.setRows(local, peers)
-	// trigger of the stale-key finding: setupConn's addOrUpdate fills the nil broadcast address of a known
-	// host with one that differs from the address it is indexed under (a refresh in the same step may then
-	// replace the record, so this cannot be read off the rings before and after)
-	if e := sr.rg.GetHost(idStr(local.id)); e != nil {
-		if v := gocql.VerifC16View(e); v.Broadcast == nil && validAddr(local.bcast) {
-			if nk, _ := ipCode(local.bcast); nk != keyOf(e) {
-				sr.mon.stale[keyOf(e)] = true
-				sr.mon.stale[nk] = true
-			}
-		}
-	}
 	adds := sr.pol.count("PAdd " + hlib.Z(local.id))
 	gocql.VerifC16ControlReconnect(sr.s)
 	// setupConn announces the control host to pool and policy on its own goroutine
@@ -568,19 +559,13 @@ func (sr *sessRun) events(evs []evSpec) bool {
 	sr.steps = append(sr.steps, fmt.Sprintf("SO (SEvents %s) %s", hlib.List(ts), ob))
 	_ = pendingBefore
 	if p != "" {
-		fid := ""
-		for _, e := range evs {
-			if sr.mon.stale[e.key] {
-				fid = findStale
-			}
-		}
-		sr.violate("event-handling-panics", fid, "handleNodeEvent panicked: "+p)
+		sr.violate("event-handling-panics", "", "handleNodeEvent panicked: "+p)
 		return false
 	}
 	// a refresh is requested iff the batch has a topology event (and they are enabled) or reports UP for an unknown address
 	pending := strings.HasPrefix(ob, "(OBS 0 true")
 	wantPending := (topo && !sr.cfg.disTopo) || unknownUp
-	if pending != wantPending && len(sr.mon.stale)+len(sr.mon.shadow) == 0 {
+	if pending != wantPending {
 		sr.violate("refresh-request", "", fmt.Sprintf("after the batch a debounced refresh is armed: %v; expected %v", pending, wantPending))
 	}
 	pool := map[string]bool{}
@@ -590,15 +575,7 @@ func (sr *sessRun) events(evs []evSpec) bool {
 	for _, d := range downs {
 		sr.downed[d.id] = d.h
 		if d.h.IsUp() || pool[d.id] {
-			// inside the stale-key finding a host answers to two addresses; a batch naming both is order dependent
-			fid := ""
-			_, ips, _ := sr.rg.Dump()
-			for k, id := range ips {
-				if id == d.id && sr.mon.stale[keyCode(k)] {
-					fid = findStale
-				}
-			}
-			sr.violate("down-host-offered", fid, "host "+d.id+" was reported DOWN but is still up or still has a pool")
+			sr.violate("down-host-offered", "", "host "+d.id+" was reported DOWN but is still up or still has a pool")
 		}
 	}
 	sr.afterStep(before)
@@ -889,23 +866,6 @@ func (g *gen) randomSession(o *hlib.Out) {
 				default:
 					evs[j] = evSpec{false, "up", key} // not a status the driver knows
 				}
-			}
-			// once an address key is stale (known finding) one host can be reached under two addresses; the
-			// driver ranges over a Go map of addresses, so the outcome of a batch that names both depends on the
-			// iteration order.  Keep at most one address per host in such batches.
-			if len(sr.mon.stale) > 0 {
-				byHost := map[string]int64{}
-				kept := evs[:0]
-				for _, e := range evs {
-					if h, ok := sr.rg.GetByIP(keyIP(e.key).String()); ok && h != nil && !e.topo {
-						if k0, seen := byHost[h.HostID()]; seen && k0 != e.key {
-							continue
-						}
-						byHost[h.HostID()] = e.key
-					}
-					kept = append(kept, e)
-				}
-				evs = kept
 			}
 			if !sr.events(evs) {
 				i = nsteps
